@@ -15,7 +15,6 @@ Variable pvis : Z -> Z.
 Hypothesis HW : 1 <= W.
 Hypothesis HH : 0 <= H.
 Hypothesis Hpv : forall c a, ahs (tbs c) a = false -> pvis (apen (tbs c) a) = pvis 0.
-Hypothesis Htr : forall c, ahs (tbs c) (sattr (tbs c) 1) = false.
 
 Definition Sync (r : rst) (t : term) : Prop :=
   cx t = fst (rpos r) /\ cy t = snd (rpos r) /\ 0 <= fst (rpos r) <= W - 1 /\ 0 <= snd (rpos r) /\
@@ -120,7 +119,7 @@ Proof.
     split; [exact Wp|]. split.
     - intros y x Hy Hx. rewrite G. apply Sp; auto.
     - split; [congruence|]. intros F. rewrite A, Ap, F. reflexivity. }
-  destruct (screen_diff_ok W (tbs cfg) pvis HW (Hpv cfg) (Htr cfg) H fs done scr (last2_of r cfg) (rpos r) _ (rcv r)
+  destruct (screen_diff_ok W (tbs cfg) pvis HW (Hpv cfg) H fs done scr (last2_of r cfg) (rpos r) _ (rcv r)
               tp pos cv td HH Ws ltac:(congruence) ltac:(congruence) Cxr Cyr ltac:(congruence)
               ltac:(unfold cvrel in *; destruct (rcv r); congruence) HP D) as (U2 & R & FR).
   split; [congruence|]. split; [exact R|].
